@@ -15,6 +15,10 @@ import (
 type methodCache[R CacheableResult] struct {
 	mu           sync.Mutex
 	cachedValues map[string]*cacheEntry[R]
+	// generation counts invalidations. A result that was requested under an
+	// older generation must not be cached: it may predate the change that the
+	// invalidating notification announced.
+	generation uint64
 }
 
 type cacheEntry[R CacheableResult] struct {
@@ -42,9 +46,35 @@ func (mc *methodCache[R]) get(key string) (R, bool) {
 	return entry.result, true
 }
 
+// gen returns the current generation of the cache. Callers read it after a
+// cache miss and before sending the request, and hand it to putIfCurrent.
+func (mc *methodCache[R]) gen() uint64 {
+	mc.mu.Lock()
+	defer mc.mu.Unlock()
+	return mc.generation
+}
+
+// putIfCurrent caches result under key, unless the cache was invalidated since
+// gen was obtained: in that case the result may be older than the state the
+// invalidating notification announced, and caching it would serve stale data
+// to later calls.
+func (mc *methodCache[R]) putIfCurrent(gen uint64, key string, result R) {
+	mc.mu.Lock()
+	defer mc.mu.Unlock()
+	if gen != mc.generation {
+		return
+	}
+	mc.putLocked(key, result)
+}
+
 func (mc *methodCache[R]) put(key string, result R) {
 	mc.mu.Lock()
 	defer mc.mu.Unlock()
+	mc.putLocked(key, result)
+}
+
+// putLocked stores result under key. mc.mu must be held.
+func (mc *methodCache[R]) putLocked(key string, result R) {
 	if mc.cachedValues == nil {
 		mc.cachedValues = make(map[string]*cacheEntry[R])
 	}
@@ -58,12 +88,14 @@ func (mc *methodCache[R]) invalidate() {
 	mc.mu.Lock()
 	defer mc.mu.Unlock()
 	clear(mc.cachedValues)
+	mc.generation++
 }
 
 func (mc *methodCache[R]) invalidateKey(key string) {
 	mc.mu.Lock()
 	defer mc.mu.Unlock()
 	delete(mc.cachedValues, key)
+	mc.generation++
 }
 
 // cursorParams is the constraint for list-method params that carry a pagination
